@@ -199,6 +199,11 @@ func JoinTables(rt *rapid.T) []model.Stmt {
 		create.SQL = RenderStmt(Plain(), create)
 		out = append(out, create)
 		nrows := rapid.SampledFrom([]int{0, 1, 2, 3, 4, 6, 9, 12}).Draw(rt, "nrows")
+		if rapid.IntRange(0, 11).Draw(rt, "bigside") == 0 {
+			// now and then one input is large enough for whatever an executor does differently for
+			// inputs beyond a few dozen rows
+			nrows = rapid.SampledFrom([]int{31, 32, 33, 63, 64, 65, 100, 130}).Draw(rt, "nrows_big")
+		}
 		if nrows > 0 {
 			s := model.Stmt{Kind: "insert", Table: name}
 			for i := 0; i < nrows; i++ {
